@@ -233,6 +233,9 @@ SMALL = {
             "excl-rerun-unreg": ("sigsim=1 maxcb=300", ["O sig 1", "O sig 2", "O tk 1", "O tm 1", "S sig_reg 1 10 1", "S sig_reg 2 10 0",
                                                         "E 1 raise 10 0", "R sig 1 0 1 raise 10 0", "R sig 1 0 1 tk_reg 1",
                                                         "R tk 1 0 1 sig_unreg 1", "S tm_reg 1 1 5 0", "R tm 1 0 1 sig_unreg 2"]),
+            # the signal is taken by a thread that never used the library
+            "foreign-thread": ("sigsim=1 maxcb=300", ["O sig 1", "O tk 1", "O tm 1", "S spawn 1"] + ["T 1 yield"] * 8 +
+                               ["S sig_reg 1 10 0", "S tk_reg 1", "R tk 1 0 1 raise 10 1", "S tm_reg 1 1 5 0", "R tm 1 0 1 sig_unreg 1"]),
             # signals aimed at a thread that is inside registration calls most of the time
             "raise-during-reg": ("sigsim=1 maxcb=300", ["O sig 1", "O sig 2", "O sig 3", "O tm 1", "S spawn 1", "T 1 iv_init", "T 1 sig_reg 1 10 0",
                                                         "T 1 set_flag 2", "T 1 sig_reg 2 12 0", "T 1 sig_unreg 2", "T 1 sig_reg 2 12 0", "T 1 sig_unreg 2",
@@ -254,6 +257,12 @@ SMALL = {
                           "R tk 5 0 1 childof 4 0 0 1", "R tk 5 0 1 wait_kill 4 15", "R wait 4 0 1 wait_unreg 4",
                           "T 1 iv_main", "T 1 iv_deinit", "S wait_spawn 1", "R wait 1 0 1 wait_unreg 1",
                           "E 1 childof 1 0 0"]),
+        # stopped, then killed, while the owner is busy; the handler drops the interest at the first status
+        "stop-kill-unreg": ("sigsim=1 maxcb=300 pids=101,102,103 chldthr=1",
+                            ["O wait 1", "O wait 4", "O tk 5", "S spawn 1", "T 1 iv_init", "T 1 wait_spawn 4",
+                             "R wait 4 0 1 wait_unreg 4", "T 1 iv_main", "T 1 iv_deinit", "S wait_spawn 1", "S tk_reg 5",
+                             "R tk 5 0 1 childof 1 2 19", "R tk 5 0 1 yield", "R tk 5 0 1 childof 1 1 9", "R tk 5 0 1 yield",
+                             "R wait 1 0 1 wait_unreg 1", "E 1 childof 4 0 0"]),
         # ... and the same with the interest dropped instead of signalled
         "unreg-vs-reap": ("sigsim=1 maxcb=300 pids=101,102,103 chldthr=0",
                           ["O wait 1", "O wait 4", "O tk 5", "S spawn 1", "T 1 iv_init", "T 1 wait_spawn 4", "T 1 tk_reg 5",
